@@ -114,7 +114,7 @@ def check_merge(run, tree, qual, in_place):
             layer = LayerModel({f: lv for f in OPTION_FIELDS}, {"a": "L"})
             env = {}
             ev = PrecEval(tree, fi, env)
-            kwargs = {f: cv for f in OPTION_FIELDS}
+            kwargs = {f: (None if cv is None else "C:" + f) for f in OPTION_FIELDS}
             kwargs.update({"a": "C", "b": "C"})
             try:
                 out = ev.run_function(fi.node, [layer], kwargs_for(fi, kwargs))
@@ -127,7 +127,7 @@ def check_merge(run, tree, qual, in_place):
                 bad.setdefault("result", []).append("returns %r" % (target,))
                 continue
             for f in OPTION_FIELDS:
-                want = lv if lv is not None else cv
+                want = lv if lv is not None else (None if cv is None else "C:" + f)
                 got = getattr(target, f, "<missing>")
                 if got != want or (got is None) != (want is None):
                     bad.setdefault(f, []).append("layer %s / call %s -> %r (required %r)" % (lv_name, cv_name, got, want))
@@ -178,6 +178,16 @@ def r2_precedence(run, tree):
                    "mis-forwarded: %s; not forwarded: %s; **kwargs forwarded: %s" % (wrong or "none", missing or "none", fwd_kwargs),
                    "the call-level vmin is used as vmax (or an option never reaches the layers)")
             # the result replaces the layer variable that is used afterwards
+        # the options handed to the renderer are the merged layer's own keyword options
+        lname = None
+        for st in walk_no_nested(fi.node):
+            if isinstance(st, ast.Assign) and isinstance(st.value, ast.Call) and st.value in sites and isinstance(st.targets[0], ast.Name):
+                lname = st.targets[0].id
+        pvals = [norm(v) for d in walk_no_nested(fi.node) if isinstance(d, ast.Dict) for k, v in zip(d.keys, d.values) if const_value(k) == "params"]
+        if q != ENTRIES[1]:
+            run.ob("%s::renderer-options-from-merged-layer" % q, bool(pvals) and lname is not None and all(v == "%s.kwargs" % lname for v in pvals),
+                   fi.where(), "renderer params = %s (merged layer is `%s`)" % (pvals, lname),
+                   "keyword options set on a Layer (cmap=..., cbar=...) are ignored in favour of the call-level ones")
         # norm built from the merged layer
         gn = [c for c in calls_in(fi.node) if isinstance(tree.resolve_call(fi, c), FuncInfo) and
               tree.resolve_call(fi, c).qual == "plot/parser.py::get_norm"]
